@@ -242,7 +242,15 @@ func H_types() {
 	t, v := symx.Choose("type", len(types)), symx.Choose("value", len(valueExprs))
 	boundary := symx.Choose("boundary", len(boundaries))
 	w := symx.Int("w")
-	src := typeFixture + "\n" + guarded(replace(boundaries[boundary].stmt, "VALUE", valueExprs[v])+" mark(70);") + "\nmark(99);"
+	// warm = 1: the same boundary is crossed once with a VALID value first (whatever the boundary
+	// remembers from an accepted value must not decide the next one)
+	warm := symx.Choose("warm", 2)
+	pre := ""
+	if warm == 1 {
+		valid := []string{"1", "\"v\"", "[2]", "new Child()", "1", "\"v\"", "1"}[t]
+		pre = replace(boundaries[boundary].stmt, "VALUE", valid) + "\n"
+	}
+	src := typeFixture + "\n" + pre + guarded(replace(boundaries[boundary].stmt, "VALUE", valueExprs[v])+" mark(70);") + "\nmark(99);"
 	for i := 0; i < 12; i++ {
 		src = replace(src, "TYPE", types[t])
 	}
